@@ -497,6 +497,35 @@ pub uninterp spec fn vd_split<T, A: core::alloc::Allocator>(v: &alloc::collectio
 pub assume_specification<T, A: core::alloc::Allocator, F: FnMut(&T) -> bool> [alloc::collections::VecDeque::<T, A>::retain] (_0: &mut alloc::collections::VecDeque<T, A>, _1: F)
     ensures final(_0)@ == old(_0)@.filter(|x: T| _1.ensures((&x,), true));
 
+// ------------------------------------------------------------------ X5 stand-ins for the eight conversions
+// The real `to_* / as_*` are `unsafe { transmute(self) }` (AST shape obligation X5-shape, layout identity by Kani K4);
+// a transmute between layout-identical wrappers of the same `internal` is the identity on that field.  Woven code
+// that *calls* a conversion (none in the pinned tree) is judged against this.
+impl<T> Sender<T> {
+    #[verifier::external_body]
+    pub fn to_async(self) -> (r: AsyncSender<T>) ensures r.internal == self.internal { unimplemented!() }
+    #[verifier::external_body]
+    pub fn as_async(&self) -> (r: &AsyncSender<T>) ensures r.internal == self.internal { unimplemented!() }
+}
+impl<T> AsyncSender<T> {
+    #[verifier::external_body]
+    pub fn to_sync(self) -> (r: Sender<T>) ensures r.internal == self.internal { unimplemented!() }
+    #[verifier::external_body]
+    pub fn as_sync(&self) -> (r: &Sender<T>) ensures r.internal == self.internal { unimplemented!() }
+}
+impl<T> Receiver<T> {
+    #[verifier::external_body]
+    pub fn to_async(self) -> (r: AsyncReceiver<T>) ensures r.internal == self.internal { unimplemented!() }
+    #[verifier::external_body]
+    pub fn as_async(&self) -> (r: &AsyncReceiver<T>) ensures r.internal == self.internal { unimplemented!() }
+}
+impl<T> AsyncReceiver<T> {
+    #[verifier::external_body]
+    pub fn to_sync(self) -> (r: Receiver<T>) ensures r.internal == self.internal { unimplemented!() }
+    #[verifier::external_body]
+    pub fn as_sync(&self) -> (r: &Receiver<T>) ensures r.internal == self.internal { unimplemented!() }
+}
+
 /*@@WOVEN@@*/
 
 } // verus!
